@@ -79,7 +79,11 @@ def _segment(node, version, out):
             out.append(('not_allowed', '%s_%d' % (name, idx), name))
     for f in node.kids:
         if f.key <= len(fl) and not (name == 'MSH' and f.key in (1, 2)):
-            _field(f, fl[f.key - 1][1], '%s_%d' % (name, f.key), version, out)
+            fref = fl[f.key - 1][1]
+            if fref is not None and T.is_base(version, fref[2]) and (len(f.kids) > 1 or any(len(c.kids) > 1 for c in f.kids)):
+                # a field of a base datatype holding several components / subcomponents
+                out.append(('datatype', '%s_%d' % (name, f.key), name))
+            _field(f, fref, '%s_%d' % (name, f.key), version, out)
     for f in node.kids:
         tag = getattr(f, 'tag', None)
         if tag and tag.get('datatype') and f.key <= len(fl):
@@ -103,6 +107,8 @@ def named(defect, errors):
             if kind == 'exceeded' and 'Child limit exceeded' in e:
                 return True
             if kind == 'not_allowed' and ('Invalid children' in e or 'Unknown element' in e or 'Invalid element' in e):
+                return True
+            if kind == 'datatype' and ('Datatype' in e or 'Invalid children' in e or 'Child limit' in e):
                 return True
     return False
 
